@@ -55,6 +55,7 @@ func checkC19(c *Check) {
 		why string
 	}
 	sites := map[string][]cmpSite{}
+	narrowed := map[string]string{}
 	for fn := range reach {
 		if fnPkgPath(fn) != akash+"/x/deployment/types" {
 			continue
@@ -140,6 +141,17 @@ func checkC19(c *Check) {
 					}
 					// cond must control an If whose true edge is an error return
 					cs := cmpSite{fn: fn, pos: r, dir: dir}
+					// the value held against the limit must be the full quantity: no truncating narrowing
+					// (big.Int.Uint64/Int64 wrap silently; integer conversions to a smaller width drop bits)
+					if bo, isBO := r.(*ssa.BinOp); isBO {
+						other := bo.X
+						if other == v {
+							other = bo.Y
+						}
+						if t := truncatedFrom(other, map[ssa.Value]bool{}, 0); t != "" {
+							narrowed[field] = "limit " + field + " is compared at " + l.Pos(r.Pos()) + " with a value narrowed by " + t + ": amounts beyond the narrow range wrap around and pass the bound"
+						}
+					}
 					for _, rr := range *cond.Referrers() {
 						if ifi, isIf := rr.(*ssa.If); isIf && ifi.Cond == cond {
 							if errReturnBlock(ifi.Block().Succs[0]) {
@@ -188,6 +200,7 @@ func checkC19(c *Check) {
 			}
 		}
 		c.Ob("R1", "limit "+f+" enforced as "+want+" bound with an error exit", pos, good > 0 && wrong == 0, detail)
+		c.Ob("R1", "limit "+f+" is compared with the untruncated quantity", pos, narrowed[f] == "", narrowed[f])
 	}
 	c.Floor("R1", 15)
 	// totals: per-unit values are multiplied by the count and summed as sdk.Int
@@ -431,4 +444,57 @@ func checkC19(c *Check) {
 	if n < 2 {
 		c.Fail("C19-R3 lost instances")
 	}
+}
+
+// truncatedFrom: does v derive (through conversions, arithmetic, phis) from a silently truncating narrowing?
+// Returns a description of the narrowing, or "".
+func truncatedFrom(v ssa.Value, seen map[ssa.Value]bool, depth int) string {
+	if seen[v] || depth > 8 {
+		return ""
+	}
+	seen[v] = true
+	intSize := func(t types.Type) int {
+		b, ok := t.Underlying().(*types.Basic)
+		if !ok || b.Info()&types.IsInteger == 0 {
+			return 0
+		}
+		switch b.Kind() {
+		case types.Int8, types.Uint8:
+			return 1
+		case types.Int16, types.Uint16:
+			return 2
+		case types.Int32, types.Uint32:
+			return 4
+		}
+		return 8
+	}
+	switch x := v.(type) {
+	case *ssa.Call:
+		switch calleeFull(x) {
+		case "(*math/big.Int).Uint64", "(*math/big.Int).Int64":
+			return calleeFull(x)
+		}
+		return ""
+	case *ssa.Convert:
+		if a, b := intSize(x.X.Type()), intSize(x.Type()); a > 0 && b > 0 && b < a {
+			return "conversion " + x.X.Type().String() + " -> " + x.Type().String()
+		}
+		return truncatedFrom(x.X, seen, depth+1)
+	case *ssa.ChangeType:
+		return truncatedFrom(x.X, seen, depth+1)
+	case *ssa.BinOp:
+		if t := truncatedFrom(x.X, seen, depth+1); t != "" {
+			return t
+		}
+		return truncatedFrom(x.Y, seen, depth+1)
+	case *ssa.Phi:
+		for _, e := range x.Edges {
+			if t := truncatedFrom(e, seen, depth+1); t != "" {
+				return t
+			}
+		}
+	case *ssa.Extract:
+		return truncatedFrom(x.Tuple, seen, depth+1)
+	}
+	return ""
 }
